@@ -22,7 +22,10 @@ Inductive expr :=
 | Ref (s : sym)
 | Elem (v k : nat)                 (* v[k], constant 1-based subscript: depends on the whole symbol v *)
 | Add (a b : expr) | Sub (a b : expr) | Mul (a b : expr) | Neg (a : expr)
-| Delay (e d : expr).
+| Delay (e d : expr)
+(* piecewise constructs: `if c1 > c2 (ge = false) / c1 >= c2 (ge = true) then a else b`, abs, min, max *)
+| Ite (ge : bool) (c1 c2 a b : expr)
+| Abs (a : expr) | Min (a b : expr) | Max (a b : expr).
 
 Inductive eqn :=
 | Eq (l r : expr)
@@ -59,6 +62,10 @@ Fixpoint norm (e : expr) : expr :=
                end
   | Neg a => match norm a with Num x => Num (- x) | a' => Neg a' end
   | Delay a d => Delay (norm a) (norm d)
+  | Ite g c1 c2 a b => Ite g (norm c1) (norm c2) (norm a) (norm b)   (* ca.if_else keeps its condition *)
+  | Abs a => Abs (norm a)
+  | Min a b => Min (norm a) (norm b)
+  | Max a b => Max (norm a) (norm b)
   end.
 
 (* free symbols (ca.symvar); a Delay node never survives translation *)
@@ -67,16 +74,18 @@ Fixpoint fsyms (e : expr) : list sym :=
   | Num _ => []
   | Ref s => [s]
   | Elem v _ => [SVar v]
-  | Add a b | Sub a b | Mul a b | Delay a b => fsyms a ++ fsyms b
-  | Neg a => fsyms a
+  | Add a b | Sub a b | Mul a b | Delay a b | Min a b | Max a b => fsyms a ++ fsyms b
+  | Neg a | Abs a => fsyms a
+  | Ite _ c1 c2 a b => fsyms c1 ++ fsyms c2 ++ fsyms a ++ fsyms b     (* the condition's symbols count *)
   end.
 
 Fixpoint has_elem (e : expr) : bool :=
   match e with
   | Elem _ _ => true
   | Num _ | Ref _ => false
-  | Add a b | Sub a b | Mul a b | Delay a b => has_elem a || has_elem b
-  | Neg a => has_elem a
+  | Add a b | Sub a b | Mul a b | Delay a b | Min a b | Max a b => has_elem a || has_elem b
+  | Neg a | Abs a => has_elem a
+  | Ite _ c1 c2 a b => has_elem c1 || has_elem c2 || has_elem a || has_elem b
   end.
 
 Definition deps (e : expr) : list sym := fsyms (norm e).
@@ -95,6 +104,13 @@ Fixpoint tr (base : nat) (loop : option (nat * nat)) (e : expr) (st : list drec)
   | Sub a b => let (a', s1) := tr base loop a st in let (b', s2) := tr base loop b s1 in (Sub a' b', s2)
   | Mul a b => let (a', s1) := tr base loop a st in let (b', s2) := tr base loop b s1 in (Mul a' b', s2)
   | Neg a => let (a', s1) := tr base loop a st in (Neg a', s1)
+  | Abs a => let (a', s1) := tr base loop a st in (Abs a', s1)
+  | Min a b => let (a', s1) := tr base loop a st in let (b', s2) := tr base loop b s1 in (Min a' b', s2)
+  | Max a b => let (a', s1) := tr base loop a st in let (b', s2) := tr base loop b s1 in (Max a' b', s2)
+  | Ite g c1 c2 a b =>                      (* conditions are walked before the branch expressions *)
+      let (c1', s1) := tr base loop c1 st in let (c2', s2) := tr base loop c2 s1 in
+      let (a', s3) := tr base loop a s2 in let (b', s4) := tr base loop b s3 in
+      (Ite g c1' c2' a' b', s4)
   | Delay a d =>
       let (a', s1) := tr base loop a st in
       let (d', s2) := tr base loop d s1 in
@@ -150,8 +166,9 @@ Fixpoint all_syms (e : expr) : list sym :=          (* occurrence in the source 
   | Num _ => []
   | Ref s => [s]
   | Elem v _ => [SVar v]
-  | Add a b | Sub a b | Mul a b | Delay a b => all_syms a ++ all_syms b
-  | Neg a => all_syms a
+  | Add a b | Sub a b | Mul a b | Delay a b | Min a b | Max a b => all_syms a ++ all_syms b
+  | Neg a | Abs a => all_syms a
+  | Ite _ c1 c2 a b => all_syms c1 ++ all_syms c2 ++ all_syms a ++ all_syms b     (* the condition's symbols count *)
   end.
 
 Definition eqn_syms (q : eqn) : list sym :=
@@ -233,6 +250,12 @@ Fixpoint eval (en : envd) (i : nat) (e : expr) : Z :=
   | Mul a b => (eval en i a * eval en i b)%Z
   | Neg a => (- eval en i a)%Z
   | Delay _ _ => 0%Z
+  | Ite g c1 c2 a b =>
+      if (if g then Z.geb (eval en i c1) (eval en i c2) else Z.gtb (eval en i c1) (eval en i c2))
+      then eval en i a else eval en i b
+  | Abs a => Z.abs (eval en i a)
+  | Min a b => Z.min (eval en i a) (eval en i b)
+  | Max a b => Z.max (eval en i a) (eval en i b)
   end.
 
 (* one output pair per delay, in creation order; indexed loop delays: one entry per iteration
